@@ -163,6 +163,19 @@ def h_metrics_io(ctx, cfg):
     ctx.prove(ok, "evaluation file reloads with the same predictions and observations")
     ctx.prove(back.chain_ids.tolist() == [0, 1][:S_] and back.sample_names.tolist() == names, "evaluation file reloads with the same chain ids and sample names")
     ctx.prove(ctx.eq(back.mse(), me.mse()), "reloaded evaluation reports the same MSE")
+    # a file that is written again (the same screen evaluated after another training round) reloads as what was written last
+    P2 = [[ctx.real("q%d_%d" % (e, s)) for s in range(S_)] for e in range(E_)]
+    O2 = [ctx.real("r%d" % e) for e in range(E_)]
+    names2 = ["m%d" % e for e in range(E_)]
+    me2 = mm.ModelEvaluation(predictions=np.array(P2, dtype=float), observations=np.array(O2, dtype=float),
+                             chain_ids=np.array([1, 0][:S_], dtype=int), sample_names=np.array(names2, dtype=str))
+    me2.save_h5(fn)
+    back2 = mm.ModelEvaluation.load_h5(fn)
+    ok = True
+    for a, b in zip([x for r in back2.predictions.tolist() for x in r] + back2.observations.tolist(), [x for r in P2 for x in r] + O2):
+        ok = ctx.And(ok, ctx.eq(a, b))
+    ctx.prove(ctx.And(ok, back2.chain_ids.tolist() == [1, 0][:S_], back2.sample_names.tolist() == names2),
+              "an evaluation file that is written again reloads as the evaluation written last", key="evaluation file keeps an earlier evaluation")
     for bad in ("pred_int", "obs_int", "chain_float", "shape"):
         kw = dict(predictions=np.array(P, dtype=float), observations=np.array(O, dtype=float),
                   chain_ids=np.array([0, 1][:S_], dtype=int), sample_names=np.array(names, dtype=str))
